@@ -11,7 +11,7 @@ run=$(echo "$cmd" | sed -E "s/.*-run +'?([A-Za-z0-9_|]+)'?.*/\1/")
 [ -z "$pkg" ] && { echo "RESULT $d cannot-parse-readme"; exit 1; }
 git -C /repo worktree add -q --detach "$wt" HEAD || exit 1
 trap 'git -C /repo worktree remove --force "$wt" 2>/dev/null' EXIT
-demo=$(ls "$d"/demo*_test.go "$d"/demo_test.go.txt 2>/dev/null | head -1)
+demo=$(ls "$d"/demo_test.go "$d"/demo_test.go.txt 2>/dev/null | head -1)
 cp "$demo" "$wt/$pkg/zz_seeded_demo_test.go"
 cd "$wt"
 go test -vet=off -count=1 -run "$run" "$pkg/" > /tmp/vm.out.$$ 2>&1; base=$?
